@@ -26,6 +26,7 @@ Scope(r) ==
     [] r.flag = "default" -> Active(r.view)
     [] r.flag = "ready" -> Ready(r.view)
     [] r.flag = "epic" -> P!VChildren(r.view, r.epic)
+    [] r.flag = "epic_ready" -> P!VChildren(r.view, r.epic) \cap Ready(r.view)
 
 C19_all_once(r) == r.flag = "all" => \A i \in DOMAIN r.view : CountOf(r, i) = 1
 C19_active_once(r) == r.flag = "default" => \A t \in Active(r.view) : CountOf(r, t) = 1
@@ -50,11 +51,22 @@ Bucket(v, t) == CASE v[t].state = "done" -> "done" [] v[t].state = "canceled" ->
                   [] v[t].state = "todo" /\ P!SpecReady(v, t) -> "ready"
                   [] OTHER -> "blocked"
 Shown(flag) == CASE flag = "default" -> {"ready", "inprogress", "blocked", "error"}
-                 [] flag = "ready" -> {"ready"}
+                 [] flag \in {"ready", "epic_ready"} -> {"ready"}
                  [] OTHER -> {"ready", "inprogress", "blocked", "error", "done", "canceled"}
 C19_summary(r) ==
   (Len(r.rows) > 0 /\ ~r.quiet) =>
      \A b \in Shown(r.flag) : r.summary[b] = Cardinality({t \in Scope(r) : Bucket(r.view, t) = b})
+
+\* a --ready view without ready tasks still summarises what is in ITS scope (the
+\* store's active tasks, or the children of the epic given with --epic)
+Base(r) == IF r.flag = "epic_ready" THEN P!VChildren(r.view, r.epic) ELSE Active(r.view)
+C19_summary_noready(r) ==
+  (r.flag \in {"ready", "epic_ready"} /\ Len(r.rows) = 0 /\ ~r.quiet /\ r.summary_printed) =>
+     \A b \in {"inprogress", "blocked", "error"} :
+        r.summary[b] = Cardinality({t \in Base(r) : Bucket(r.view, t) = b})
+C19_ready_rows(r) == r.flag = "epic_ready" =>
+                       \A t \in P!VTasks(r.view) :
+                          CountOf(r, t) = (IF t \in Scope(r) THEN 1 ELSE 0)
 
 \* an empty view says so
 C19_empty(r) == Len(r.rows) = 0 => r.sentence # ""
